@@ -142,7 +142,7 @@ def run(ctx):
         wfs = small + [wc.sample(ctx.rng, 3) for _ in range(1500)] + [wc.sample(ctx.rng, 4) for _ in range(900)]
     else:
         wfs = ctx.rng.sample(small, 400) + [wc.sample(ctx.rng, 3) for _ in range(420)] + [wc.sample(ctx.rng, 4) for _ in range(260)]
-    wfs += wc.diamond_family() + wc.triangle_family()
+    wfs += wc.diamond_family() + wc.triangle_family() + wc.three_input_family()
     wfs = [all_outs(w) for w in wfs]
     # the keyword-only spelling of single-field splitters on a sample
     kw = [dict(w, spelling="kw") for w in ctx.rng.sample(wfs, min(len(wfs), 400 if ctx.thorough else 60))
@@ -173,7 +173,7 @@ def run(ctx):
         judge(ctx, w, e, o)
     ctx.exhaustive = False
     ctx.rule = ("workflow records: all 1-2 node workflows over the node menu (thorough) / seeded sample (quick), seeded samples of 3-4 node "
-                "workflows, the 4-node diamond family, the triangle family, seeded 2-4 node workflows with nested-workflow nodes; every node output compared; non-trivial = >= 2 nodes and >= 2 jobs somewhere")
+                "workflows, the 4-node diamond family, the triangle family, the three-input family (a node with three inputs carrying one split), seeded 2-4 node workflows with nested-workflow nodes; every node output compared; non-trivial = >= 2 nodes and >= 2 jobs somewhere")
     good = [(w, e) for w, e in zip(wfs, exp) if len(w["nodes"]) >= 3 and not e["rejected"]][:2]
     for w, e in good:
         ctx.sample({"workflow": wc.wf_source(w).split("def GenWf")[1], "expected_last_node": wc.conv(e["outs"][-1])})
